@@ -134,3 +134,211 @@ Definition best_metric_found (md : mode) (table : list (Z * list Q)) : option (Z
 Definition promotable (md : mode) (metric_val cutoff : Q) : bool :=
   let sign := match md with Min => (1 - 2 * 1) | Max => (1 - 2 * 0) end in
   negb (Qltb (sign * (metric_val - cutoff)) 0).
+
+(* ---- DEHB: GeometricDifferentialEvolutionHyperbandScheduler._selection ----------------------- *)
+(* metric_sign = -1 if mode == "max" else 1; if metric_sign * (metric_val - target_metric_val) >= 0 the
+   target wins; [target_metric] = None: target value still pending, no selection *)
+Definition dehb_selection (md : mode) (do_selection : bool) (trial target : Z) (metric_val : Q)
+           (target_metric : option Q) : Z :=
+  if do_selection then
+    match target_metric with
+    | Some tm =>
+        let metric_sign := match md with Max => (-1 # 1) | Min => 1 end in
+        if Qleb 0 (metric_sign * (metric_val - tm)) then target else trial
+    | None => trial
+    end
+  else trial.
+
+(* ---- RegularizedEvolution._update and parent selection ---------------------------------------- *)
+(* score = result[metric]; if mode == "max": score *= -1 *)
+Definition rea_score (md : mode) (m : Q) : Q := match md with Max => m * (-1 # 1) | Min => m end.
+
+(* population: deque of (trial, score); append, popleft when longer than population_size *)
+Definition rea_update (md : mode) (population_size : nat) (pop : list (Z * Q)) (trial : Z) (m : Q) : list (Z * Q) :=
+  let pop' := pop ++ [(trial, rea_score md m)] in
+  if (population_size <? length pop')%nat then tl pop' else pop'.
+
+(* parent = min(candidates, key=lambda i: i.score): first candidate with minimal score *)
+Fixpoint rea_min_from (best : Z * Q) (l : list (Z * Q)) : Z * Q :=
+  match l with
+  | [] => best
+  | x :: r => rea_min_from (if Qltb (snd x) (snd best) then x else best) r
+  end.
+Definition rea_parent (candidates : list (Z * Q)) : option (Z * Q) :=
+  match candidates with [] => None | x :: r => Some (rea_min_from x r) end.
+
+(* ---- MOASHA._metric_dict: reported value * _metric_op[metric], op = 1 (min) / -1 (max) -------- *)
+Definition metric_op (md : mode) : Q := match md with Min => 1 | Max => (-1 # 1) end.
+Fixpoint moasha_metric_dict (modes : list mode) (vals : list Q) : list Q :=
+  match modes, vals with
+  | md :: ms, v :: vs => v * metric_op md :: moasha_metric_dict ms vs
+  | _, _ => []
+  end.
+
+(* ---- ExperimentResult.best_config: results[metric].argmin() / .argmax() (first occurrence) ---- *)
+Fixpoint argbest_from (md : mode) (l : list Q) (i : nat) (best : nat * Q) : nat :=
+  match l with
+  | [] => fst best
+  | x :: r => argbest_from md r (S i) (if strictly_before md x (snd best) then (i, x) else best)
+  end.
+Definition best_index (md : mode) (l : list Q) : option nat :=
+  match l with [] => None | x :: r => Some (argbest_from md r 1 (0%nat, x)) end.
+
+(* ---- minimal model of the promotion-type rung system: hyperband_promotion.py -------------------
+   PromotionRungSystem.on_task_schedule / _find_promotable_trial / _mark_as_promoted / on_task_add /
+   on_task_report / on_task_remove, driven directly (one rung system; the bracket manager only selects
+   the system and skip_rungs). Self-contained: the promotion model of C04 lives elsewhere. *)
+
+(* PromotionRungEntry(trial_id, metric_val, was_promoted) *)
+Record pentry := { pe_trial : Z; pe_metric : Q; pe_promoted : bool }.
+Record prung := { pr_level : Z; pr_quant : Q; pr_data : list pentry }.
+Definition pe_entry (e : pentry) : entry := {| e_trial := pe_trial e; e_metric := pe_metric e |}.
+
+(* SortedList.add with key = sign * metric_val (bisect_right) *)
+Fixpoint psl_add (md : mode) (e : pentry) (l : list pentry) : list pentry :=
+  match l with
+  | [] => [e]
+  | x :: r => if Qleb (sort_key md (pe_metric x)) (sort_key md (pe_metric e)) then x :: psl_add md e r else e :: l
+  end.
+
+Definition prung_contains (t : Z) (rg : prung) : bool := existsb (fun e => Z.eqb (pe_trial e) t) (pr_data rg).
+
+(* position and entry of the first entry (best first) with not was_promoted *)
+Fixpoint first_unpromoted (l : list pentry) (pos : nat) : option (pentry * nat) :=
+  match l with
+  | [] => None
+  | e :: r => if pe_promoted e then first_unpromoted r (S pos) else Some (e, pos)
+  end.
+
+Inductive find_res := FNone | FFound (t : Z) (pos : nat) | FAssert.
+
+(* _find_promotable_trial *)
+Definition find_promotable (md : mode) (rg : prung) : find_res :=
+  match rung_quantile md (pr_quant rg) (map pe_entry (pr_data rg)) with
+  | QNone => FNone
+  | QAssert => FAssert
+  | QVal cutoff =>
+      match first_unpromoted (pr_data rg) 0 with
+      | None => FNone
+      | Some (e, pos) => if promotable md (pe_metric e) cutoff then FFound (pe_trial e) pos else FNone
+      end
+  end.
+
+Fixpoint remove_nth {A} (l : list A) (i : nat) : list A :=
+  match l, i with
+  | [], _ => []
+  | _ :: r, O => r
+  | x :: r, S j => x :: remove_nth r j
+  end.
+
+(* _mark_as_promoted: entry = rung.pop(pos); entry.was_promoted = True; rung.add(entry) *)
+Definition mark_as_promoted (md : mode) (rg : prung) (pos : nat) : prung :=
+  match nth_error (pr_data rg) pos with
+  | None => rg
+  | Some e => {| pr_level := pr_level rg; pr_quant := pr_quant rg;
+                 pr_data := psl_add md {| pe_trial := pe_trial e; pe_metric := pe_metric e; pe_promoted := true |}
+                                    (remove_nth (pr_data rg) pos) |}
+  end.
+
+(* the loop of on_task_schedule over _rungs (top down); result: rungs, Some (trial_id, resume_from, milestone) *)
+Inductive sched_res := SNone | SPromote (t : Z) (resume_from milestone : Z) | SAssert.
+Fixpoint sched_scan (md : mode) (eff_max_t : Z) (rs : list prung) (next_milestone : Z) : list prung * sched_res :=
+  match rs with
+  | [] => ([], SNone)
+  | rg :: rest =>
+      let continue_ := let '(rest', res) := sched_scan md eff_max_t rest (pr_level rg) in (rg :: rest', res) in
+      if (pr_level rg <? eff_max_t)%Z then
+        match find_promotable md rg with
+        | FFound t pos => (mark_as_promoted md rg pos :: rest, SPromote t (pr_level rg) next_milestone)
+        | FAssert => (rs, SAssert)
+        | FNone => continue_
+        end
+      else continue_
+  end.
+
+(* _running : trial -> (milestone, resume_from) *)
+Record psys := { ps_rungs : list prung; ps_running : list (Z * (Z * option Z)) }.
+
+Definition p_on_task_schedule (md : mode) (max_t : Z) (sys : psys) : psys * sched_res :=
+  let '(rs, res) := sched_scan md max_t (ps_rungs sys) max_t in
+  ({| ps_rungs := rs; ps_running := ps_running sys |}, res).
+
+(* get_first_milestone(skip_rungs): self._rungs[-(skip_rungs + 1)].level if skip_rungs < num_rungs else max_t *)
+Definition first_milestone (max_t : Z) (rs : list prung) (skip : nat) : Z :=
+  if (skip <? length rs)%nat then
+    match nth_error rs (length rs - (skip + 1)) with Some rg => pr_level rg | None => max_t end
+  else max_t.
+
+(* on_task_add: new trial (resume = None) or resumed trial (Some (milestone, resume_from)); None = assert fails *)
+Definition p_on_task_add (max_t : Z) (sys : psys) (t : Z) (skip : nat) (resume : option (Z * Z)) : option psys :=
+  match resume with
+  | None => Some {| ps_rungs := ps_rungs sys;
+                    ps_running := assoc_set (ps_running sys) t (first_milestone max_t (ps_rungs sys) skip, None) |}
+  | Some (milestone, resume_from) =>
+      if (resume_from <? milestone)%Z
+      then Some {| ps_rungs := ps_rungs sys; ps_running := assoc_set (ps_running sys) t (milestone, Some resume_from) |}
+      else None
+  end.
+
+Inductive perror := PKeyRunning | PAssertMilestone | PAssertInRung.
+(* task_continues, milestone_reached, next_milestone, ignore_data *)
+Definition preport := (bool * bool * option Z * bool)%type.
+
+(* _rung_pos_for_level and the update at that position; [above] = level of the rung above (or max_t) *)
+Fixpoint register_at (md : mode) (rs : list prung) (level above : Z) (t : Z) (m : Q)
+  : option (option (list prung * Z)) :=           (* None = assert; Some None = no rung with that level *)
+  match rs with
+  | [] => Some None
+  | rg :: rest =>
+      if (pr_level rg =? level)%Z then
+        if prung_contains t rg then None
+        else Some (Some ({| pr_level := pr_level rg; pr_quant := pr_quant rg;
+                            pr_data := psl_add md {| pe_trial := t; pe_metric := m; pe_promoted := false |} (pr_data rg) |}
+                           :: rest, above))
+      else match register_at md rest level (pr_level rg) t m with
+           | None => None
+           | Some None => Some None
+           | Some (Some (rest', nm)) => Some (Some (rg :: rest', nm))
+           end
+  end.
+
+Definition p_on_task_report (md : mode) (max_t : Z) (sys : psys) (t r : Z) (m : Q) : psys * (preport + perror) :=
+  match assoc_get (ps_running sys) t with
+  | None => (sys, inr PKeyRunning)
+  | Some (milestone, resume_from) =>
+      let ignore_data := match resume_from with Some rf => (r <=? rf)%Z | None => false end in
+      if (milestone <=? r)%Z then
+        if negb (r =? milestone)%Z then (sys, inr PAssertMilestone) else
+        match register_at md (ps_rungs sys) milestone max_t t m with
+        | None => (sys, inr PAssertInRung)
+        | Some None => (sys, inl (false, true, None, ignore_data))
+        | Some (Some (rs, nm)) =>
+            ({| ps_rungs := rs; ps_running := ps_running sys |}, inl (false, true, Some nm, ignore_data))
+        end
+      else (sys, inl (true, false, None, ignore_data))
+  end.
+
+Definition p_on_task_remove (sys : psys) (t : Z) : psys :=
+  {| ps_rungs := ps_rungs sys; ps_running := assoc_del (ps_running sys) t |}.
+
+Inductive pevent :=
+| PSchedule                                      (* on_task_schedule *)
+| PAdd (t : Z) (skip : nat) (resume : option (Z * Z))
+| PReport (t r : Z) (m : Q)
+| PRemove (t : Z).
+Inductive pout := POSched (r : sched_res) | POAdd (ok : bool) | POReport (r : preport + perror) | PODone.
+
+Definition pstep (md : mode) (max_t : Z) (sys : psys) (ev : pevent) : psys * pout :=
+  match ev with
+  | PSchedule => let '(s, r) := p_on_task_schedule md max_t sys in (s, POSched r)
+  | PAdd t skip resume =>
+      match p_on_task_add max_t sys t skip resume with Some s => (s, POAdd true) | None => (sys, POAdd false) end
+  | PReport t r m => let '(s, o) := p_on_task_report md max_t sys t r m in (s, POReport o)
+  | PRemove t => (p_on_task_remove sys t, PODone)
+  end.
+
+Fixpoint prun (md : mode) (max_t : Z) (sys : psys) (evs : list pevent) : psys * list pout :=
+  match evs with
+  | [] => (sys, [])
+  | ev :: rest => let '(s, o) := pstep md max_t sys ev in let '(s', os) := prun md max_t s rest in (s', o :: os)
+  end.
